@@ -44,6 +44,13 @@ class RScope:
             return self.frames[0][name]
         raise KeyError(name)
 
+    def flatten(self):
+        d = dict(self.frames[0])
+        d.update(self.globals)
+        for f in self.frames[1:]:
+            d.update(f)
+        return d
+
     def defined(self, name):
         try:
             self.lookup(name)
@@ -104,9 +111,15 @@ class Ref:
     def ev(self, e, scope, default_ok=False):
         if 'py' in e:
             code = self.codes[e['py']]
-            env = _EnvMapping(scope, self.helpers if not default_ok
-                              else dict(self.helpers, default=self.default))
-            return eval(code, {'__builtins__': _builtins}, env)
+            # names: template variables first, then helpers, then Python builtins.  The environment is
+            # passed as *globals* so that lambdas/comprehensions inside the expression see it too.
+            g = {'__builtins__': _builtins}
+            g.update(self.helpers)
+            if default_ok:
+                g['default'] = self.default
+            g.update(scope.flatten())
+            g.pop('__switch__', None)
+            return eval(code, g, g)   # explicit locals: CrossHair's eval model would otherwise use frame locals
         if 'pipe' in e:
             alts = e['pipe']
             for i, a in enumerate(alts):
@@ -116,6 +129,24 @@ class Ref:
                     return self.ev(a, scope, default_ok)
                 except PIPE_CAUGHT:
                     continue
+        if 'python' in e:
+            return self.ev(e['python'], scope, default_ok)
+        if 'attr' in e:
+            # attribute access falls back to item lookup (docs: "Dictionary lookup as fallback after
+            # attribute error"); a failing item lookup re-raises the AttributeError
+            obj = self.ev(e['attr'][0], scope, default_ok)
+            name = e['attr'][1]
+            try:
+                return getattr(obj, name)
+            except AttributeError as exc:
+                try:
+                    get = obj.__getitem__
+                except AttributeError:
+                    raise exc
+                try:
+                    return get(name)
+                except KeyError:
+                    raise exc
         if 'not' in e:
             return not self.ev(e['not'], scope, default_ok)
         if 'exists' in e:
@@ -305,7 +336,17 @@ class Ref:
             scope.pop()
 
     def start_tag(self, node, scope):
-        attrs = [[n, v, True] for n, v in node.get('static', [])]   # name, text, static?
+        attrs = []
+        for n, v in node.get('static', []):                        # name, text, static?
+            if not isinstance(v, str):
+                text = ''
+                for part in v:
+                    if isinstance(part, str):
+                        text = text + part
+                    else:
+                        text = text + self.to_text(self.ev(part['interp'], scope), True, '"')
+                v = text
+            attrs.append([n, v, True])
         for n, e in node.get('attributes', []):
             v = self.ev(e, scope, default_ok=True)
             idx = None
